@@ -23,9 +23,10 @@ import wire
 MODULES = ["TLX.Props.C06Bytes"]
 P = "TLX.Props.C06Bytes."
 THEOREMS = [P + n for n in (
-    "scapy_checksum_is_rfc1071", "serialize_ok_iff", "ipv4_header_checksum_valid", "tcp_checksum_valid",
-    "udp_checksum_valid", "l4_check_accepts", "length_fields_consistent", "parse_serialize",
-    "pcapng_is_draft_encoding", "pcapng_roundtrip", "pcapng_wellformed", "fileOf_roundtrip", "fileOf_ok_iff")]
+    "scapy_checksum_is_rfc1071", "serialize_ok_iff", "parse_serialize", "parse_serialize_outpkt",
+    "ipv4_header_checksum_valid", "l4_checksum_valid", "tcp_checksum_valid", "udp_checksum_valid", "l4_check_accepts",
+    "length_fields_consistent", "pcapng_ok_iff", "pcapng_is_draft_encoding", "pcapng_roundtrip", "pcapng_wellformed",
+    "fileOf_ok_iff", "fileOf_roundtrip")]
 
 PT_BUILD_TCP = "outbytes.tcpbuild"
 PT_BUILD_UDP = "outbytes.udpbuild"
